@@ -267,19 +267,63 @@ func c18PSafe(f func()) (p string) {
 	return ""
 }
 
-// c18RunHistory returns the violation key ("" if none), a description and the step table.
-func c18RunHistory(h *c18History, tmp string, res *kit.Result, verbose bool) (key, what string, table []string) {
+// c18PanelDB is a worker's database: a real localManager on a bolt file. It is kept for up to 64 histories
+// (opening a bolt file costs more than a whole history); every history starts by deleting both users
+// through the API and by reading back that they are gone.
+type c18PanelDB struct {
+	dir string
+	mgr interface {
+		usermanager.UserManager
+		Close() error
+	}
+	router *usermanager.APIRouter
+	uses   int
+}
+
+func c18OpenPanelDB(tmp string) *c18PanelDB {
 	dir, err := os.MkdirTemp(tmp, "c18hist")
 	if err != nil {
 		panic(err)
 	}
-	defer os.RemoveAll(dir)
 	mgr, err := usermanager.MakeLocalManager(filepath.Join(dir, "userinfo.db"), common.WorldOfTime(time.Unix(0, 0)))
 	if err != nil {
 		panic(err)
 	}
-	defer mgr.Close()
-	router := usermanager.APIRouterOf(mgr)
+	return &c18PanelDB{dir: dir, mgr: mgr, router: usermanager.APIRouterOf(mgr)}
+}
+
+func (d *c18PanelDB) close() {
+	c18PSafe(func() { d.mgr.Close() })
+	os.RemoveAll(d.dir)
+}
+
+// fresh returns a database without users: the same one emptied, or a new file.
+func (d *c18PanelDB) fresh(tmp string) *c18PanelDB {
+	if d != nil {
+		d.uses++
+		ok := d.uses%64 != 0
+		for _, uid := range c18PUIDs {
+			if !ok {
+				break
+			}
+			if p := c18PSafe(func() { _ = d.mgr.DeleteUser(uid) }); p != "" {
+				ok = false
+			}
+			if _, err := d.mgr.GetUserInfo(uid); err != usermanager.ErrUserNotFound {
+				ok = false
+			}
+		}
+		if ok {
+			return d
+		}
+		d.close()
+	}
+	return c18OpenPanelDB(tmp)
+}
+
+// c18RunHistory returns the violation key ("" if none), a description and the step table.
+func c18RunHistory(h *c18History, db *c18PanelDB, res *kit.Result, verbose bool) (key, what string, table []string) {
+	mgr, router := db.mgr, db.router
 	// the panel as MakeUserPanel builds it, minus the ticker goroutine: the replay runs the upload itself
 	panel := &userPanel{
 		Manager:          mgr,
@@ -366,7 +410,7 @@ func c18RunHistory(h *c18History, tmp string, res *kit.Result, verbose bool) (ke
 		if pan != "" {
 			logf("  PANIC %s", pan)
 			name := map[string]string{"round": "commitUpdate", "connect": "GetUser", "disconnect": "CloseSession", "post": "WriteUserInfo", "delete": "DeleteUser"}[st.O]
-			if st.O == "round" && !strings.Contains(pan, "commitUpdate") {
+			if st.O == "round" && strings.Contains(pan, "updateUsageQueue") && !strings.Contains(pan, "commitUpdate") {
 				name = "updateUsageQueue"
 			}
 			return "panic:" + name, fmt.Sprintf("step %d (%s %s): %s", si, st.O, st.U, pan), table
@@ -445,7 +489,9 @@ func TestVerifC18Panel(t *testing.T) {
 		if err := json.Unmarshal(raw, &rf); err != nil {
 			t.Fatal(err)
 		}
-		key, what, table := c18RunHistory(&rf.Replay.History, tmp, res, true)
+		db := c18OpenPanelDB(tmp)
+		defer db.close()
+		key, what, table := c18RunHistory(&rf.Replay.History, db, res, true)
 		for _, l := range table {
 			fmt.Println(l)
 		}
@@ -464,6 +510,12 @@ func TestVerifC18Panel(t *testing.T) {
 		wg.Add(1)
 		go func() {
 			defer wg.Done()
+			var db *c18PanelDB
+			defer func() {
+				if db != nil {
+					db.close()
+				}
+			}()
 			for j := range jobs {
 				var h c18History
 				if err := json.Unmarshal(j.line, &h); err != nil {
@@ -474,7 +526,8 @@ func TestVerifC18Panel(t *testing.T) {
 				if j.idx%200 == 0 {
 					res.SetRunning(map[string]any{"history": h}, true)
 				}
-				key, what, _ := c18RunHistory(&h, tmp, res, false)
+				db = db.fresh(tmp)
+				key, what, _ := c18RunHistory(&h, db, res, false)
 				nilTerms, admin := 0, false
 				var sig strings.Builder
 				connected := false
@@ -497,11 +550,15 @@ func TestVerifC18Panel(t *testing.T) {
 				if key != "" {
 					seenM.Lock()
 					seen[key]++
-					first := seen[key] <= 3
+					first := seen[key] <= 8 // kit keeps the first three that arrive; make sure those carry a table
 					seenM.Unlock()
 					var table []string
+					db.close() // a failing history never hands its database on
+					db = nil
 					if first {
-						_, _, table = c18RunHistory(&h, tmp, res, true)
+						d2 := c18OpenPanelDB(tmp)
+						_, _, table = c18RunHistory(&h, d2, res, true)
+						d2.close()
 					}
 					res.Violate(key, what, map[string]any{"history": h, "table": table})
 				}
